@@ -372,7 +372,7 @@ func (w *walker) bindParams(ft *ast.FuncType, recv *ast.FieldList, fr *Frame, ca
 	recvExpr ast.Expr, recvFr *Frame, args []Value, cs *types.Var, st *state) {
 	info := fr.Info()
 	bindAlias := func(obj types.Object, argExpr ast.Expr, afr *Frame, val Value) {
-		if val.Kind != VUnknown {
+		if val.Kind != VUnknown && val.Kind != VNonNil {
 			st.env = st.env.bind(obj, val)
 			return
 		}
